@@ -25,8 +25,9 @@ type EngSpec struct {
 	CacheOff   bool              `json:"cache_off,omitempty"`
 	Debug      bool              `json:"debug,omitempty"`
 	AutoReload bool              `json:"auto_reload,omitempty"`
-	FailAt     int               `json:"fail_at,omitempty"` // spy invocation that fails
-	Sandbox    bool              `json:"sandbox,omitempty"` // EnableSandbox(allowAll)
+	FailAt     int               `json:"fail_at,omitempty"`        // spy invocation that fails
+	Sandbox    bool              `json:"sandbox,omitempty"`        // EnableSandbox(allowAll)
+	DefaultPol bool              `json:"default_policy,omitempty"` // EnableSandbox(NewDefaultSecurityPolicy())
 }
 
 type OneShot struct {
@@ -72,6 +73,9 @@ func buildEngine(s EngSpec) (*twig.Engine, *Spies) {
 	sp.Install(e)
 	if s.Sandbox {
 		e.EnableSandbox(allowAll{})
+	}
+	if s.DefaultPol {
+		e.EnableSandbox(twig.NewDefaultSecurityPolicy())
 	}
 	for _, r := range s.Registered {
 		e.RegisterString(r[0], r[1])
